@@ -238,6 +238,15 @@ Section Out.
         * eapply Forall_impl; [|exact Q2]. intros a. apply Hfz.
   Qed.
 
+  Lemma forget_tree_keys p : forall keys r k r' k', forget_tree keys p r k = (r', k') ->
+    NoDup (map fst (wfp r)) -> NoDup (map fst (wfp r')).
+  Proof.
+    induction keys as [|[q0 y] keys IH]; intros r k r' k' H Hn; cbn [forget_tree] in H; [now injection H as <- _|].
+    destruct (beqb q0 p || starts (p ++ [sep]) q0); [|eapply IH; eauto].
+    destruct (alookup beqb q0 (wfp r)) as [wd0|]; [|eapply IH; eauto].
+    destruct (alookup N.eqb wd0 (pfw r)) as [q'|]; [destruct (beqb q' q0)|]; (eapply IH; [exact H|]); cbn [wfp]; now apply wkeys_rem.
+  Qed.
+
   (* ---------------------------------------------------------------- the kernel with and without the departed watches *)
   (* kC is kP without the watches rejected by f *)
   Definition krel (f : kwatch -> bool) (kP kC : kst) : Prop :=
@@ -807,6 +816,11 @@ Section Out.
           split; [exists kw; split; [apply filter_In; split; [exact Hk | apply (Hkeep kw x Hk Hb); now rewrite Ek] | exact Ek]|].
           rewrite P1 by (eapply Hnofz; eauto). exact Hp.
         * rewrite M, Emv. intros c' x Hx. rewrite N2, Enc. apply (mvf_aset_lt (mvf r) c p 0%N (wi_mvf _ _ _ _ I) c' x Hx).
+        * intros wd x HxC. destruct (alookup N.eqb wd (pfw r)) as [x'|] eqn:Ex; [|rewrite (P0 wd Ex) in HxC; discriminate].
+          destruct (wi_pfw _ _ _ _ I _ _ Ex) as (kw & Hk & Ek). exists kw. split; [|exact Ek]. apply filter_In. split; [exact Hk|].
+          destruct (f kw) eqn:E; [reflexivity|]. exfalso. destruct (F2 kw E) as (x1 & Hb1 & Hx1). cbn [rclr wfp] in Hx1.
+          rewrite ?Ewf in Hx1. rewrite Ek in Hx1. rewrite (P2 x1 wd Hb1 (Hkeys _ _ Hx1) Hx1) in HxC. discriminate.
+        * apply (forget_tree_keys _ _ _ _ _ _ Ef). cbn [rclr wfp]. rewrite ?Ewf. apply I.
       + intros e' He' De' Se'. destruct (Cv' e' He' De' Se') as (kw & C1 & C2 & C3). rewrite Epf in C2. rewrite Ewf in C3.
         assert (Hb : blw p (f_path e') = false) by (apply (blw_frename p q t1 Hne Hupq Hqp); exact He').
         destruct (watch_of_ino_some _ _ _ C1) as [Hk Ei]. rewrite Ewa in Hk.
@@ -1188,6 +1202,66 @@ Section Out.
     assert (S : RSync C w k0 r0) by (constructor; try assumption; now apply fisdir_in).
     destruct (cover_sequential_x Hm ops w k0 r0 None (RSync_JSync _ _ _ S) Hc) as (w' & k' & r' & hot' & Hrun & G).
     exists r0, k0, w', k', r'. split; [assumption|]. split; [assumption|]. now apply (GS_cover _ _ _ hot').
+  Qed.
+
+  (* ---------------------------------------------------------------- the reader's tables mention live watches only *)
+  (* the state after the pending move-out candidate (if any) has been settled: what the next record's settle_pending
+     makes of it (repaired reader) *)
+  Definition settled (r : rstate) (k : kst) : rstate * kst :=
+    match pend r with
+    | Some (c, p) => forget_tree (wfp r) p (rclr r) k
+    | None => (r, k)
+    end.
+
+  Lemma JSync_tables_live w k r : JSync w k r -> tables_live k r.
+  Proof. intros [S _]. exact (RSync_tables_live C _ _ _ S). Qed.
+
+  Lemma POut_tables_live w k r h c p : POut w k r h c p ->
+    tables_live (snd (forget_tree (wfp r) p (rclr r) k)) (fst (forget_tree (wfp r) p (rclr r) k)).
+  Proof. intros PO. exact (RSync_tables_live C _ _ _ (po_clean _ _ _ _ _ _ PO)). Qed.
+
+  (* in every state of the invariant of cover_sequential_x, once the pending candidate is settled *)
+  Lemma GS_tables_live w k r hot : GS w k r hot -> tables_live (snd (settled r k)) (fst (settled r k)).
+  Proof.
+    destruct hot as [h|]; cbn [GS]; unfold settled.
+    - intros (c & p & PO). rewrite (po_pend _ _ _ _ _ _ PO). exact (POut_tables_live _ _ _ _ _ _ PO).
+    - intros J. rewrite (rs_pend _ _ _ _ (js_sync _ _ _ J)). exact (JSync_tables_live _ _ _ J).
+  Qed.
+
+  (* at every drained point of the run *)
+  Fixpoint live_along (w : world) (k : kst) (r : rstate) (ops : list op) : Prop :=
+    tables_live (snd (settled r k)) (fst (settled r k)) /\
+    match ops with
+    | [] => True
+    | o :: rest =>
+      match apply_op w o with
+      | None => live_along w k r rest
+      | Some w' =>
+        let k1 := kernel_op k (w_fs w) o in
+        match read_batch C (w_fs w') (r, drainq k1, []) (k_queue k1) with
+        | Done (r', k', _) => live_along w' k' r' rest
+        | Crash _ => True
+        end
+      end
+    end.
+
+  Theorem tables_live_along : c_mask C = WATCHDOG_ALL -> forall ops w k r hot, GS w k r hot -> ops_x w hot ops ->
+    live_along w k r ops.
+  Proof.
+    intros Hm. induction ops as [|o ops IH]; intros w k r hot G Hc; cbn [live_along ops_x] in *;
+      (split; [exact (GS_tables_live _ _ _ _ G)|]); [exact I|].
+    destruct (apply_op w o) as [w'|] eqn:Ea; [|now apply (IH w k r hot)].
+    destruct Hc as [Hs Hc]. destruct (gs_step w k r hot o w' Hm G Hs Ea) as (r' & k' & evs & Hrd & G' & _).
+    cbv zeta in Hrd |- *. rewrite Hrd. now apply (IH w' k' r' _ G').
+  Qed.
+
+  Theorem tables_live_from_start ops w : c_mask C = WATCHDOG_ALL -> wf_fs w -> fisdir root (w_fs w) = true ->
+    ops_x w None ops ->
+    exists r0 k0, construct C kinit (w_fs w) = Some (r0, k0) /\ live_along w k0 r0 ops.
+  Proof.
+    intros Hm W Hroot Hc. destruct (construct_cover C Hfaults w W Hroot) as (r0 & k0 & Hcons & I & Cv & Hq & _ & Hp0).
+    assert (S : RSync C w k0 r0) by (constructor; try assumption; now apply fisdir_in).
+    exists r0, k0. split; [exact Hcons|]. exact (tables_live_along Hm ops w k0 r0 None (RSync_JSync _ _ _ S) Hc).
   Qed.
 End Out.
 
